@@ -218,6 +218,33 @@ func runC11(c *core.Ctx) {
 		}
 	}
 	if ds == nil {
+		// folded into its caller: the one function that evaluates the effect (in its own closures) and delivers to OnNext
+		cands := map[*ssa.Function]bool{}
+		for f := range evaluators {
+			root := f
+			for root.Parent() != nil {
+				root = root.Parent()
+			}
+			if ev.wrappers[root] {
+				continue
+			}
+			delivers := false
+			core.InstrsDeep(root, func(_ *ssa.Function, ins ssa.Instruction) {
+				if call, ok := ins.(*ssa.Call); ok && core.FieldKey(call.Call.Value) == "Subscription.OnNext" {
+					delivers = true
+				}
+			})
+			if delivers {
+				cands[root] = true
+			}
+		}
+		if len(cands) == 1 {
+			for f := range cands {
+				ds = f
+			}
+		}
+	}
+	if ds == nil {
 		c.Unknown("R3", "doSubscribe", "-", "subscribe routine not found")
 		return
 	}
